@@ -510,18 +510,28 @@ class Interp:
             m = re.match(r'^<(.+?) as ', c)
             if m: selfty = ty_head(m.group(1))
         elif len(segs) >= 2: selfty = segs[-2]
+        # several impls of one trait family for the same Self (PartialEq, PartialEq<[u8]>, ...): prefer the one whose trait text matches
+        want_trait = None
+        mt = re.match(r'^<.+ as ([^>]+(?:<.*>)?)>::\w+$', c)
+        if mt: want_trait = re.sub(r'\b\w+::', '', mt.group(1)).replace(' ', '')
+        fallback = None
         for cn in cands:
             if '<impl at' in cn:
                 st_, tr_ = self.find_impl_self(cn)
                 f0 = self.funcs[cn][0]
                 a0 = split_top(f0.args)[0] if f0.args.strip() else ''
                 a0ty = ty_head(a0.split(': ', 1)[1]) if ': ' in a0 else None
-                if st_ == selfty or (st_ is None and a0ty == selfty): return f0
+                if st_ == selfty or (st_ is None and a0ty == selfty):
+                    if want_trait is None or tr_ is None or tr_ == 'derive': return f0
+                    have = re.sub(r'\b\w+::', '', tr_).replace(' ', '')
+                    if have == want_trait: return f0
+                    if fallback is None: fallback = f0
+                    continue
             elif len(segs) >= 2 and cn.endswith('::'.join(segs[-2:])):
                 return self.funcs[cn][0]
             elif len(segs) == 1 and cn == meth:
                 return self.funcs[cn][0]
-        return None
+        return fallback
 
     def resolve_into(self, callee):
         """`<X as Into<Y>>::into` is the blanket impl over a repository `impl From<X> for Y`"""
